@@ -23,6 +23,8 @@ LoggerConfs(clock, m) ==
        {LoggerConf(1, <<Basic(2)>>, ll, gl, clock, m) : ll \in {Debug, Warn}, gl \in {Trace, Info, Error}}
   \cup {LoggerConf(2, <<Burst(1, 2, 0)>>, ll, gl, clock, m) : ll \in {Debug, Warn}, gl \in {Trace, Info}}
   \cup {LoggerConf(3, <<Burst(1, 2, 2), Basic(2)>>, Info, Debug, clock, m)}
+  \* samplers that never admit anything, installed directly on the logger: nothing is written (a nil NextSampler means "reject", a nil sampler on the logger would mean "admit all")
+  \cup {LoggerConf(4, <<Burst(0, 2, 0)>>, Debug, Trace, clock, m), LoggerConf(5, <<Burst(1, 0, 0)>>, Debug, Trace, clock, m), LoggerConf(6, <<Basic(0)>>, Debug, Trace, clock, m)}
 
 QuickConfs == {BurstConf(b, per, nx, {0, 1, 2, 3, 5}, 4) : b \in {0, 1, 2}, per \in {0, 2, 3}, nx \in {"none", "basic2", "burst12"}}
               \cup {BasicConf(n, 8) : n \in {0, 1, 2, 3, 5}} \cup LevelConfs({0, 2}, 3) \cup LoggerConfs({0, 2}, 3)
